@@ -42,6 +42,13 @@ def module_sources(case):
         "    global x",
         "    x = v",
         "    return x",
+        "def counted(func):",
+        "    def wrapper(*args, **kw):",
+        "        global counter",
+        "        counter += 1",
+        "        vrec('m1', 'wrapped', x, counter)",
+        "        return func(*args, **kw)",
+        "    return wrapper",
     ]
     if case["m1_imports_pkg"]:
         m1.insert(0, "import pkg")
@@ -76,6 +83,7 @@ CALLS = {
     "via_pkg": ("m1pkg", "m1.via_pkg({n})", None),
     "deep": ("pkg", "pkg.deep({n})", "deep({n})"),
     "touch": ("sub", None, "touch()"),
+    "wrapped": ("deco", None, "wrapped_fn({n})"),
 }
 
 
@@ -90,7 +98,7 @@ def script_source(name, spec, case):
     if 1 in forms:
         names |= {"bump", "fail"}
     if 2 in forms:
-        names |= {"bump", "fail", "call_back", "setx"} | ({"via_pkg"} if case["m1_imports_pkg"] else set())
+        names |= {"bump", "fail", "call_back", "setx", "counted"} | ({"via_pkg"} if case["m1_imports_pkg"] else set())
     if 4 in forms:
         names.add("deep")
     if 5 in forms:
@@ -103,6 +111,19 @@ def script_source(name, spec, case):
         "    return y",
         "def probe(tag):",
         f"    vrec('{name}', 'probe', tag, x, y, shared)",
+    ]
+    if have_m1 or "counted" in names:
+        # a decorator defined in the module wraps a function of this file: the wrapper runs on the module's globals
+        names.add("wrapped")
+        L += [
+            "@m1.counted" if have_m1 else "@counted",
+            "def wrapped_fn(n):",
+            "    global y",
+            "    y += 10",
+            f"    vrec('{name}', 'wrapped_fn', x, y)",
+            "    return n + 1",
+        ]
+    L += [
         "def main():",
         "    global x",
         "    probe('start')",
